@@ -93,7 +93,7 @@ Fixpoint triples (g : list Q) : outcome (list (Q * Q * Q)) :=      (* reshape((-
   match g with
   | [] => Ok []
   | x :: y :: z :: r => obind (triples r) (fun t => Ok ((x, y, z) :: t))
-  | _ => Err PyValueError                                           (* numpy: cannot reshape *)
+  | _ => Err Validation                    (* numpy cannot reshape: caught, re-raised as ValidationError *)
   end.
 
 Definition dist2 (p q : Q * Q * Q) : Q :=
